@@ -671,6 +671,11 @@ def run(model, rep, tier):
     rep.rule('R14.11', 'every name loaded in solver.py resolves (symtable)')
     from rules import names as _names
     _names.check(model, rep, 'R14.11', ('solver',), 55)
+    from rules import round4 as _r4
+    rep.rule('R14.12', 'solve_constraints returns initial state + increment; block right-hand sides are reduced with the largest column norm; Direct uses the strict linear solve')
+    _r4.check_constraint_update(model, rep, 'R14.12')
+    _r4.check_column_norm_reduction(model, rep, 'R14.12')
+    _r4.check_strict_linear_solve(model, rep, 'R14.12')
     rep.require('R14.1', 8)
     rep.require('R14.2', 3)
     rep.require('R14.3', 10)
